@@ -293,7 +293,7 @@ def model_outputs(ops):
     return p.stdout.decode("utf-8", "replace").splitlines(), ""
 
 
-def analyse(res, name, out, findings, model=True, oracle_prefixes=()):
+def analyse(res, name, out, findings, model=True, oracle_prefixes=(), as_props=()):
     """Split harness output, run the model on the op lines, diff, collect PROP-FAILs."""
     ops, impl, case_of = [], [], []
     case = None
@@ -386,8 +386,11 @@ def analyse(res, name, out, findings, model=True, oracle_prefixes=()):
         prop = parts[0]
         sig = parts[1] if len(parts) > 1 else ""
         desc = parts[2] if len(parts) > 2 else ""
-        if prop != res.prop:
+        if prop != res.prop and prop not in as_props:
             # a harness may serve several properties; only this property's failures count here
+            # (as_props: failures the harness files under another property that this property's
+            # statement covers as well, e.g. the limiter checks of C08 under C14's "the advertised
+            # dictionary limit is in force")
             continue
         kf = findings.match(prop, sig)
         if kf is not None:
